@@ -23,7 +23,6 @@ def fn_props():
         "bt.backtest.Backtest._process_data": {"C11", "C04"}, "bt.core.Node.__init__": {"C19"}, "bt.algos.WeighInvVol.__call__": {"C15", "C04"}, "bt.algos.WeighERC.__call__": {"C15", "C04"},
         "bt.algos.WeighMeanVar.__call__": {"C15", "C04"}, "bt.algos.TargetVol.__call__": {"C15", "C04"}, "bt.algos.PTE_Rebalance.__call__": {"C15", "C04"}, "bt.algos.LimitWeights.__call__": {"C15"},
         "bt.algos.SelectMomentum.__init__": {"C14"}, "bt.algos.ResolveOnTheRun.__call__": {"C14"}, "bt.core.SecurityBase.setup": {"C04", "C10"}, "bt.core.CouponPayingSecurity.setup": {"C17", "C04"},
-        "bt.algos.CapitalFlow.__call__": {"C03"}, "bt.algos.CloseDead.__call__": {"C06"}, "bt.core.AlgoStack.__init__": {"C13"}, "bt.core.Strategy.__init__": {"C13", "C19"},
     }
     for k, v in extra.items():
         m.setdefault(k, set()).update(v)
